@@ -27,6 +27,10 @@ pub struct NodeSpec {
     pub path_trace: bool,
     #[serde(default = "default_p2")]
     pub p2: u8,
+    /// added to the sequenceId of the node's Announces: the 0x7fff->0x8000 and 0xffff->0 crossings
+    /// fall into the observed part of the run
+    #[serde(default)]
+    pub ann_seq_offset: u16,
 }
 
 fn default_p2() -> u8 {
@@ -75,7 +79,11 @@ pub fn build_sim(t: &Topo) -> Result<Sim, PanicInfo> {
         b.seed = t.seed.wrapping_add(i as u64 * 7919);
         b.rec_reply = ReplyMode::EchoDelay;
         let built = b.build()?;
-        sim.add_node(built.node, ns.bmca_phase_ns);
+        let idx = sim.add_node(built.node, ns.bmca_phase_ns);
+        while sim.announce_seq_offset.len() <= idx {
+            sim.announce_seq_offset.push(0);
+        }
+        sim.announce_seq_offset[idx] = ns.ann_seq_offset;
     }
     for l in &t.links {
         let li = sim.add_link(l.ends.clone(), l.delay_ns, l.jitter_ns, t.loss);
@@ -383,7 +391,11 @@ pub fn run_case(rep: &mut Report, t: &Topo, verbose: bool) {
 fn node_spec(rng: &mut StdRng, id: u8, n_ports: usize, allow_low_class: bool) -> NodeSpec {
     let class = if allow_low_class && rng.gen_bool(0.15) { [6u8, 7, 127][rng.gen_range(0..3)] } else { [128u8, 187, 248][rng.gen_range(0..3)] };
     // priority1 ties are frequent on purpose: priority2 (and then the identity) decides
-    NodeSpec { id, p1: [100u8, 128, 128, 128, 200][rng.gen_range(0..5)], class, slave_only: false, n_ports, bmca_phase_ns: rng.gen_range(0..I_NS), path_trace: false, p2: [128u8, 128, 10, 50, 200, 255][rng.gen_range(0..6)] }
+    NodeSpec { id, p1: [100u8, 128, 128, 128, 200][rng.gen_range(0..5)], class, slave_only: false, n_ports, bmca_phase_ns: rng.gen_range(0..I_NS), path_trace: false, p2: [128u8, 128, 10, 50, 200, 255][rng.gen_range(0..6)], ann_seq_offset: match rng.gen_range(0..10) {
+        0..=3 => 0,
+        4..=6 => 0x8000u16.wrapping_sub(rng.gen_range(5..90)),
+        _ => 0u16.wrapping_sub(rng.gen_range(5..90)),
+    } }
 }
 
 pub fn gen_topo(rng: &mut StdRng) -> Topo {
